@@ -2,7 +2,7 @@
    Only statements, [exact], Print Assumptions and Examples live here. *)
 From Coq Require Import List NArith Arith Permutation Sorted.
 From DS Require Import Gen.Constants Base.Bytes Base.LE64 Base.GoPath Model.Format Model.Goodbye Model.Sip Model.Tar Model.TarSink
-     Model.TarWalk Model.TarStream Proofs.GoodbyeProofs Proofs.TarProofs Proofs.TarSinkProofs Proofs.PathChildProofs Proofs.TarWalkProofs.
+     Model.TarWalk Model.TarStream Proofs.GoodbyeProofs Proofs.TarProofs Proofs.TarSinkProofs Proofs.PathChildProofs Proofs.TarWalkProofs Proofs.C13Examples.
 Import ListNotations.
 
 (* makeGoodbyeBST, for EVERY number of directory entries and every list of items (duplicated
@@ -36,19 +36,20 @@ Print Assumptions C13_bst_lookup.
 
 (* TEST (not a theorem about all inputs): the model of SipHash-2-4 reproduces the 64 vectors of
    the reference implementation. *)
-Example C13_sip_vectors : sip_ref_computed = sip_ref_vectors.
-Proof. vm_compute. reflexivity. Qed.
+Example C13_sip_vectors :
+  sip_ref_computed = sip_ref_vectors.
+Proof. exact C13_sip_vectors_proof. Qed.
 
 (* Non-vacuity / shape: 6 items with a duplicated hash; the table is the complete tree. *)
 Example C13_bst_example :
   make_goodbye_bst [(10, 1, 50); (20, 1, 30); (30, 1, 50); (40, 1, 10); (50, 1, 70); (60, 1, 60)]%N
   = Some [(30, 1, 50); (20, 1, 30); (50, 1, 70); (40, 1, 10); (10, 1, 50); (60, 1, 60)]%N.
-Proof. vm_compute. reflexivity. Qed.
+Proof. exact C13_bst_example_proof. Qed.
 
 Example C13_lookup_example :
   casync_lookup [(30, 1, 50); (20, 1, 30); (50, 1, 70); (40, 1, 10); (10, 1, 50); (60, 1, 60)]%N 60%N
   = Some (5, (60, 1, 60)%N).
-Proof. vm_compute. reflexivity. Qed.
+Proof. exact C13_lookup_example_proof. Qed.
 
 (* ---------------------------------------------------------------------------------------
    The archive as a whole.  [tar_node t] is the model of tar.go's recursion over a source tree
@@ -135,14 +136,14 @@ Example C13_tar_example :
    let t := NDir m [] [([97], NFile m [] [1; 2; 3]); ([98], NDir m [] [([120], NFile m [] [])]);
                        ([99], NSymlink m [] [97]); ([100], NDevice m [] true 1 3)] in
    validate true (tar_bytes t) = Some t)%N.
-Proof. vm_compute. reflexivity. Qed.
+Proof. exact C13_tar_example_proof. Qed.
 
 (* the unordered reader accepts names in stream order, the ordered one does not *)
 Example C13_tar_stream_example :
   (let m := mkMeta 493 0 0 1600000000000000000 in
    let t := NDir m [] [([98], NFile m [] [1]); ([97], NFile m [] [])] in
    validate false (tar_bytes t) = Some t /\ validate true (tar_bytes t) = None)%N.
-Proof. vm_compute. split; reflexivity. Qed.
+Proof. exact C13_tar_stream_example_proof. Qed.
 
 (* ---------------------------------------------------------------------------------------
    Success means a complete archive.  [tar_into v t k] (Model/TarSink.v) is Tar() writing the
